@@ -6,11 +6,11 @@ CLAIMS = {
  'C01': ('Verus: contracts on the real text of same_day, bed_and_breakfast, section104, acquisition_ledger, process_sell (rule order, leg quantities, window 0<days<=30, weighted same-day cost, pool average cost, per-look-ahead reservations, claim ledger); Kani: the two day-difference tests accept exactly 1..=30 (complete over i64), thorough tier adds the calendar part on the real chrono.',
          'Unbounded in ledger length and iteration count; relative to A-dec (exact decimals), A-date, A-map. The day loop is proved to add the day\'s purchases before its sales, to pool after the sales and to leave nothing of earlier days unallocated (L2: inv_lots, day order, pooling); NOTHING SKIPPED (INV_LEGS closed): Matcher::process returns, for every (disposal date, security), legs whose quantities add up to exactly the shares the caller\'s list sells of that security on that date (through the sort/merge of preprocess, whose per-day totals are proved order- and fill-split-independent, and through every SELL line of the day loop). The reservation sum over a day\'s lots (INV_RES) is not machine-checked; "nothing skipped in the 30-day window" and equality with an independent whole-ledger evaluation are not decided.'),
  'C02': ('Verus: every lot operation preserves wf_lot (consumed+reserved+in_pool<=original, all >=0) and moves exactly the reported amount; legs of a sale sum to its quantity (process_sell: Ok => sum == amount); claims against a purchase never exceed it (fc_capped through the look-ahead and the day loop); pool quantity updates on pooling / S104 / SPLIT / UNSPLIT.',
-         'Step-wise conservation proved for all inputs; END-TO-END for the first sentence (C02.leg_sum.total, INV_LEGS): the legs Matcher::process returns for a (date, security) add up to the quantity the input sells that day, for every ledger it accepts. C02.position: the per-security position acquisitions - disposals rescaled by splits is carried through Matcher::process as a function of the line list (net_total) and proved non-negative at every day\'s close. That the returned Section 104 pool quantity EQUALS that position (closing holding sentence) needs INV_POS (pending 30-day claims across splits) and is not machine-checked. A-dec.'),
+         'Step-wise conservation proved for all inputs; END-TO-END for the first sentence (C02.leg_sum.total, INV_LEGS): the legs Matcher::process returns for a (date, security) add up to the quantity the input sells that day, for every ledger it accepts. CLOSING HOLDING (INV_POS closed, C02.closing): Matcher::process carries, for every security and through every loop of the day cycle, pool + what is still available of the day\'s purchases == position + shares already disposed of under the 30-day rule whose purchases are still to come, where the position is acquisitions - disposals rescaled by the splits that have taken effect (a fold over the date-ordered line list, net_total) and the pending shares are the claims converted by the composition of the splits between now and the purchase (pend/gfac; key lemma: the look-ahead\'s own factor split_factor equals that composition). At the end nothing is pending and nothing unallocated, so the returned Section 104 quantity of every security EQUALS its position. Stated over the sorted-and-merged list (per-(date, security, side) share totals proved equal to the input\'s; that SPLIT lines pass through preprocess unchanged is not proved). A-dec.'),
  'C03': ('Verus: one unit cost per lot used by same-day, 30-day and pooling; same-day legs consume lots proportionally so leg cost == sum(consumed_k * unit_k); pooled cost == cost of exactly the shares marked in_pool; S104 leg cost leaves the pool; capital-return/accumulation offsets sum to exactly the adjustment.',
          'END-TO-END (INV_COST closed): Matcher::process carries, through every loop of the day cycle and for every security, legs + pool + unallocated - pending 30-day claims == cost of all lots, with every lot equal to its BUY line incl. its capital-return offset (inv_lots); at the end nothing is unallocated and no claim is pending, so cost of all legs + closing pool cost == sum over the lots of quantity x unit cost. Relative to the PREPROCESSED list (that same-day merging conserves shares, consideration and fees per (date, security, side) is proved separately: C04.merge), to quantity x unit cost == quantity x price + fees + offset (false only for a zero-quantity BUY with fees, whose fees the tool drops), and to A-dec (28-digit rounding of * and / is not modelled). That every BUY has exactly one lot is proved per day (buys_added_all), not yet as a global bijection.'),
  'C05': ('Verus: (sound direction, END-TO-END) Matcher::process carries, per security, acquisitions less disposals to date rescaled by the splits that have taken effect (spec net_state/net_total, a fold over the date-ordered line list) and returns Ok only if that position is non-negative at the close of every day (covered_upto) - so a report is produced only when every sale is covered, whatever the 30-day rule matched (repair 364008a of defect F2). process_sell returns Err before any state change when the sale exceeds same-day availability + pool quantity; legs of an accepted sale sum to the quantity sold; an Err from conversion or from the matcher means no report (calculate).',
-         'The completeness direction (a covered ledger is never refused) needs INV_POS (pool + same-day ledger == position + shares pending under the 30-day rule) and is not machine-checked. C05.sound is stated over the sorted-and-merged list preprocess returns (its per-(date, security, side) share totals are proved equal to the input\'s; that SPLIT lines pass through unchanged is not proved). CLI/MCP front-ends are A-ext.'),
+         'The completeness direction (a covered ledger is never refused) is not machine-checked: INV_POS (now proved, see C02) shows the pre-cascade holding check cannot fire on a covered sale, but that no other refusal is reachable (unmatched remainder, reservation overflow) is not proved. C05.sound is stated over the sorted-and-merged list preprocess returns (its per-(date, security, side) share totals are proved equal to the input\'s; that SPLIT lines pass through unchanged is not proved). CLI/MCP front-ends are A-ext.'),
  'C09': ('Verus frame clauses: every mutating matcher function changes ledgers/pools only at the transaction\'s own ticker; the look-ahead changes claims only at same-ticker buys in the window.',
          'Frames of each step; the projection equality report(all) = (+) report(S) is the L3 closure and is not machine-checked; ticker case folding in parser/serde is A-ext.'),
  'C10': ('Verus: SPLIT multiplies and UNSPLIT divides the pool quantity only (cost, ledgers, legs, other tickers untouched); look-ahead quantities are rescaled by the cumulative ratio of the splits dated from the disposal day up to, not including, the acquisition\'s day (repairs 218dd93 and 551d6d1) and costed in buy-time units.',
